@@ -40,15 +40,19 @@ def jobs(tier):
             js.append({"country": c, "event": ev})
         js.append({"country": c, "event": "EARN"})
     js.append({"country": "generic", "event": "ENV"})
+    # one disposal spanning several lots: every fraction is classified on its own (real compute_tax, symbolic instants)
+    for m in ("fifo", "lifo", "hifo"):
+        js.append({"country": "generic", "event": "MULTI", "method": m, "code": "BBS"})
+    js.append({"country": "generic", "event": "MULTI", "method": "lifo", "code": "BBSS" if tier == "thorough" else "BSS"})
     return js
 
 
 def describe(spec):
-    return "%s %s" % (spec["country"], spec["event"])
+    return "%s %s%s" % (spec["country"], spec["event"], " %s %s" % (spec["code"], spec["method"]) if spec["event"] == "MULTI" else "")
 
 
 def bounds(tier):
-    return {"instants": "1970-01-02 .. 9999-12-30 UTC, microseconds", "utc_offsets_minutes": [-720, 840], "generic_period_days": [0, 10**7], "countries": ["us", "es", "jp", "ie", "generic"], "events": ["SELL", "MOVE (transfer fee)", "earn"], "loop_free": True}
+    return {"instants": "1970-01-02 .. 9999-12-30 UTC, microseconds", "utc_offsets_minutes": [-720, 840], "generic_period_days": [0, 10**7], "countries": ["us", "es", "jp", "ie", "generic"], "events": ["SELL", "MOVE (transfer fee)", "earn"], "loop_free": True, "multi_lot": "jobs MULTI: real compute_tax on BBS / BSS (thorough BBSS) with an own symbolic instant and UTC offset per transaction inside 2020, generic plugin with a 2-day period, fifo/lifo/hifo: every fraction must carry the flag of its own pair of instants"}
 
 
 def assumptions():
@@ -64,6 +68,8 @@ def run(S, spec):
     from rp2.rp2_error import RP2ValueError  # pylint: disable=import-outside-toplevel
 
     country = spec["country"]
+    if spec["event"] == "MULTI":
+        return run_multi(S, spec)
     if spec["event"] == "ENV":
         from rp2.plugin.country.generic import Generic  # pylint: disable=import-outside-toplevel
 
@@ -112,3 +118,33 @@ def run(S, spec):
     S.observe("long", got)
     S.expect(got == want, "C05", "flag", "holding %s the threshold but reported %s" % ("reaches" if want else "is below", "LONG" if got else "SHORT"), country=country)
     return "long" if got else "short"
+
+
+def run_multi(S, spec):
+    """every fraction of a multi-lot disposal carries the flag of its own pair of timestamps (period 2 days, 1-year window)"""
+    from rp2.rp2_error import RP2ValueError  # pylint: disable=import-outside-toplevel
+
+    from .common import Hist, run_tax, slots_of  # pylint: disable=import-outside-toplevel
+
+    S.set_years([2020])
+    h = Hist(S, slots_of(spec["code"]), [2020], tz=True)
+    cfg = make_cfg("generic", period=2, allow_negative=True)
+    try:
+        cd = run_tax(cfg, {"2020": spec["method"]}, h.build(cfg))
+    except RP2ValueError:
+        return "error"
+    row2slot = {h.row(i): i for i in range(len(h.slots))}
+    flags = []
+    for g in cd.gain_loss_set:
+        e = row2slot[g.taxable_event.row]
+        got = g.is_long_term_capital_gains()
+        if g.acquired_lot is None:
+            want = False
+        else:
+            L = row2slot[g.acquired_lot.row]
+            want = bool(h.t[e] - h.t[L] >= 2 * DAY)
+        S.expect(got == want, "C05", "fraction-flag", "fraction %d->%s: holding %s 2 days but reported %s" % (e, g.acquired_lot.row if g.acquired_lot is not None else None, "reaches" if want else "is below", "LONG" if got else "SHORT"))
+        flags.append((e, got))
+    S.observe("flags", flags)
+    S.note("fractions", len(flags))
+    return "ok"
